@@ -14,7 +14,7 @@ def labels_of(world):
     m = {}
     for k, objs in world.items():
         for i, o in enumerate(objs):
-            m[id(o)] = f"{k}{i}"
+            m[id(o)] = f"{k}{i}"      # by identity: equal-valued objects of kind E keep different labels
     return m
 
 
